@@ -1,6 +1,8 @@
 use crate::ctx::Ctx;
 
 pub mod c01;
+pub mod c04;
+pub mod c19;
 pub mod c06;
 pub mod c07;
 pub mod c08;
@@ -35,6 +37,8 @@ pub fn run(prop: &str, ctx: &mut Ctx) -> bool {
         "C08" => c08::run(ctx),
         "C07" => c07::run(ctx),
         "C06" => c06::run(ctx),
+        "C19" => c19::run(ctx),
+        "C04" => c04::run(ctx),
         _ => return false,
     }
     true
